@@ -57,6 +57,10 @@ def detect(d, props, tier="quick"):
     r = sh(["git", "-C", REPO, "apply", patch])
     assert r.returncode == 0, r.stdout
     out = {}
+    saved = {}
+    for p in props:
+        ev = os.path.join(VERIF, "evidence", "%s.json" % p)
+        saved[p] = open(ev).read() if os.path.exists(ev) else None
     try:
         for p in props:
             r = sh([os.path.join(VERIF, "check"), p, "--tier", tier], cwd=VERIF)
@@ -65,6 +69,13 @@ def detect(d, props, tier="quick"):
                       "tail": r.stdout.strip().splitlines()[-1:]}
     finally:
         sh(["git", "-C", REPO, "checkout", "--", "."])
+        # evidence and replays written while the seeded change was applied are not evidence about the real tree
+        for p, txt in saved.items():
+            ev = os.path.join(VERIF, "evidence", "%s.json" % p)
+            if txt is not None:
+                open(ev, "w").write(txt)
+            elif os.path.exists(ev):
+                os.remove(ev)
     print(json.dumps(out, indent=1))
     mp = os.path.join(d, "meta.json")
     if os.path.exists(mp):
